@@ -3,7 +3,13 @@ import Cel.Model.PrimD
 namespace Cel.Drv.C03
 open Cel Cel.Drv
 
-/-- values: `i <int>` | `b <0|1>` | `s <alnum, _ = empty>` | `n` | `e` | `l <n> v*` -/
+/-- alternating list `k₁ v₁ k₂ v₂ …` → keys, values -/
+def unzipAlt : List Val → List Val × List Val
+  | k :: v :: rest => let (ks, vs) := unzipAlt rest; (k :: ks, v :: vs)
+  | _ => ([], [])
+
+/-- values: `i <int>` | `b <0|1>` | `s <alnum, _ = empty>` | `n` | `e` | `l <n> v*` | `m <n> (k v)*` (a `MapType`) |
+`o <tag>` (a value of a kind outside the concrete fragment: uint, double, bytes, timestamp, duration) -/
 partial def parseVal : List String → Option (Val × List String)
   | "i" :: n :: rest => n.toInt?.map fun i => (.int i, rest)
   | "b" :: b :: rest => some (.bool (b == "1"), rest)
@@ -14,6 +20,12 @@ partial def parseVal : List String → Option (Val × List String)
       let n ← n.toNat?
       let (xs, r) ← parseVals n rest
       pure (.list xs, r)
+  | "m" :: n :: rest => do
+      let n ← n.toNat?
+      let (xs, r) ← parseVals (2 * n) rest
+      let (ks, vs) := unzipAlt xs
+      pure (.map ks vs, r)
+  | "o" :: t :: rest => t.toNat?.map fun t => (.other t, rest)
   | _ => none
 where
   parseVals : Nat → List String → Option (List Val × List String)
@@ -95,7 +107,7 @@ partial def canon : Val → String
   | .err => "errvalue"
   | .map _ _ => "map:?"
   | .fnobj _ => "py:builtins.function"
-  | .other _ => "other"
+  | .other _ => "?other"
 
 /-- outcome at the API: value | `err` | `skip` (a primitive outside the modelled fragment was reached) -/
 def showRun (r : PyM Val) : String :=
